@@ -1,6 +1,7 @@
 (* Declarative specification for C12, independent of the model's loops.  Short enough to read
    in a minute: what a tag line is, what its key and value are, which lines a comment group
-   has, and which group is "the comment group that ends on the line directly above". *)
+   has ([lines_of_text], a relation that uses no function of the model; [spec_lines] is its executable
+   form), and which group is "the comment group that ends on the line directly above". *)
 Require Import Gengo.Base.Bytes.
 From Coq Require Import ZArith.
 Require Import Gengo.Model.Comments.   (* only for the data types pos / group / decl / event *)
@@ -70,11 +71,58 @@ Fixpoint cut_lines (s cur : bytes) : list bytes :=
   | c :: r => if Ascii.eqb c (ascii_of_N 10) then rev cur :: cut_lines r [] else cut_lines r (c :: cur)
   end.
 
+(* [spec_lines] is the EXECUTABLE form (it is evaluated on every observed case by Corr/C12.v).  It cuts lines with
+   the loop above and it calls the model's [trim_space], so by itself it is no independent reading of the property.
+   Its meaning is fixed by the relation [lines_of_text] below, which mentions no function of the model:
+   Props/C12.v proves  lines_of_text text ls <-> spec_lines text = ls  and the same for the model's group_lines. *)
 Definition spec_lines (text : bytes) : list bytes :=
   match trim_space text with
   | [] => []
   | t => filter (fun l => negb (starts_with_go l)) (cut_lines t [])
   end.
+
+(* ---- the lines of a comment group, as a RELATION between Text() and a list of lines ---- *)
+
+(* White space: the 25 code points with the Unicode White_Space property, each as its UTF-8 byte sequence
+   (U+0009-U+000D, U+0020, U+0085, U+00A0, U+1680, U+2000-U+200A, U+2028, U+2029, U+202F, U+205F, U+3000). *)
+Definition ws_codes : list (list N) :=
+  [ [9]; [10]; [11]; [12]; [13]; [32]; [194; 133]; [194; 160]; [225; 154; 128];
+    [226; 128; 128]; [226; 128; 129]; [226; 128; 130]; [226; 128; 131]; [226; 128; 132]; [226; 128; 133];
+    [226; 128; 134]; [226; 128; 135]; [226; 128; 136]; [226; 128; 137]; [226; 128; 138];
+    [226; 128; 168]; [226; 128; 169]; [226; 128; 175]; [226; 129; 159]; [227; 128; 128] ]%N.
+Definition ws_chars : list bytes := map (map ascii_of_N) ws_codes.
+
+(* a byte string that consists of white-space characters only *)
+Definition blank (s : bytes) : Prop := exists ws, Forall (fun w => In w ws_chars) ws /\ s = concat ws.
+Definition starts_ws (s : bytes) : Prop := exists w r, In w ws_chars /\ s = w ++ r.
+Definition ends_ws (s : bytes) : Prop := exists w r, In w ws_chars /\ s = r ++ w.
+
+Definition nl : ascii := ascii_of_N 10.
+(* the lines put together again: one newline BETWEEN consecutive lines *)
+Fixpoint join_nl (ls : list bytes) : bytes :=
+  match ls with
+  | [] => []
+  | l :: r => match r with [] => l | _ :: _ => l ++ nl :: join_nl r end
+  end.
+Definition no_nl (l : bytes) : Prop := ~ In nl l.
+
+(* a line that starts with "go:" (a directive) *)
+Definition is_go (l : bytes) : Prop := exists r, l = ascii_of_N 103 :: ascii_of_N 111 :: ascii_of_N 58 :: r.
+(* [without_go all ls]: ls is all without its directive lines, order kept *)
+Inductive without_go : list bytes -> list bytes -> Prop :=
+| wg_nil : without_go [] []
+| wg_skip l all ls : is_go l -> without_go all ls -> without_go (l :: all) ls
+| wg_keep l all ls : ~ is_go l -> without_go all ls -> without_go (l :: all) (l :: ls).
+
+(* [ls] are the lines of a comment group whose go/ast Text() is [text]:
+   text is  <white space> core <white space>  where core neither starts nor ends with a white-space character;
+   an empty core has no lines; otherwise core is cut at its newlines (the pieces contain no newline and, joined
+   with one newline between neighbours, give core back) and the pieces that start with "go:" are left out. *)
+Definition lines_of_text (text : bytes) (ls : list bytes) : Prop :=
+  exists pre core suf,
+    text = pre ++ core ++ suf /\ blank pre /\ blank suf /\ ~ starts_ws core /\ ~ ends_ws core /\
+    ((core = [] /\ ls = []) \/
+     (core <> [] /\ exists all, Forall no_nl all /\ join_nl all = core /\ without_go all ls)).
 
 (* ---- attribution ---- *)
 
